@@ -183,7 +183,10 @@ impl QuicMultiplexer {
                         Some(m) => Some(Event::UdpSend(m)),
                         None => return Err(io::Error::new(ErrorKind::Other, "Message receiving channel closed unexpectedly")),
                     },
-                    _ = &mut wait_timeout, if self.closest_deadline.is_some_and(|x| x > Instant::now()) => None,
+                    // A deadline which is already in the past (it expired while the previous event was
+                    // being handled) fires at once: every fired deadline is removed or rescheduled by
+                    // `process_timeouts`, so this cannot spin
+                    _ = &mut wait_timeout, if self.closest_deadline.is_some() => None,
                 }
             };
 
